@@ -396,7 +396,7 @@ impl Scenario for OdbRepack {
         16
     }
     fn cpu_limit_s(&self, _p: &str) -> u64 {
-        30
+        90
     }
     fn runs(&self, tier: Tier, _p: &str) -> u64 {
         super::tier_pick(tier, 3_000, 300_000)
